@@ -1867,6 +1867,8 @@ class Tensor:
                         "mask": placeholder_mutant_view.creator.where,
                     },
                 )
+            # (the pass-through result stands for the same mutated tensor)
+            placeholder_mutant_view._constant = inplace_target._constant
 
         # Connect public base tensor to placeholder graph via the mutated placeholder
         # tensor `out`.
